@@ -3,7 +3,7 @@ import numpy as np
 
 from .. import graphs as G
 from .. import oracles as O
-from .common import call, close
+from .common import call, close, dtype_variants_agree
 
 PROP = 'C08'
 ANCHORS = ['betweenness_bin', 'betweenness_wei', 'edge_betweenness_bin', 'edge_betweenness_wei']
@@ -45,6 +45,7 @@ def cases(tier, seed):
         recs.append((['er', n, float(rs.choice([.08, .15, .25, .4, .7])), d, int(rs.randint(1 << 30))], d))
     for i, (g, d) in enumerate(recs):
         out.append({'g': g, 'directed': d, 'ws': seed * 100 + i, 'schemes': ['bin', 'int', 'dyad', 'real', 'neartie', 'bigint', 'logu']})
+    out.append({'g': ['named', 'blob_chain', 20, 34, False], 'directed': False, 'ws': 1, 'schemes': ['bin']})
     for g in G.many_paths(200):
         out.append({'g': g, 'directed': g[-1] is True, 'ws': 1, 'schemes': ['bin']})
     return out
@@ -97,6 +98,9 @@ def run(case, bct, REC):
             e, b2 = res
             REC.check(PROP, 'edge_betweenness_wei', 'edge_values', close(e, EBC, rtol=1e-9, atol=1e-9), dict(det, got=e, expected=EBC))
             REC.check(PROP, 'edge_betweenness_wei', 'node_values', close(b2, BC, rtol=1e-9, atol=1e-9), dict(det, got=b2, expected=BC))
+        if sc == 'bin' and n <= 30:
+            for fname in ('betweenness_bin', 'edge_betweenness_bin'):
+                dtype_variants_agree(REC, PROP, fname, getattr(bct, fname), L)
         if sc == 'bin':
             ok, b = call(REC, PROP, 'betweenness_bin', bct.betweenness_bin, L)
             if ok:
